@@ -16,6 +16,16 @@ with open(os.path.join(wt, "_seed", "TASK.md"), "w") as f:
     f.write(brief)
     f.write("Your worktree: %s\n\nProperty %s — %s\n\nStatement: %s\n\nQuantified over: %s\n\nAnchored in: %s\n" % (
         wt, p["id"], p["title"], p["statement"], p["quantifier"]["text"], ", ".join(p["anchors"]["files"])))
+    import glob
+    prev = []
+    for mp in sorted(glob.glob("/verif/seeded/%s-*/meta.json" % pid)):
+        try:
+            m = json.load(open(mp)); prev.append("- " + str(m.get("summary", ""))[:500])
+        except Exception:
+            pass
+    if prev:
+        f.write("\nEarlier adversaries already produced the following changes for this property; yours must be DIFFERENT in kind: "
+                "pick another clause of the statement, another function or another mechanism (not a variation of these):\n" + "\n".join(prev) + "\n")
     mech = p["anchors"].get("mechanism") or []
     if mech:
         f.write("\nMechanisms meant to make it hold: " + "; ".join("%s (%s)" % (m.get("name"), m.get("where")) for m in mech) + "\n")
